@@ -1,4 +1,5 @@
 mod jaeger;
+mod others;
 mod rng;
 
 use std::io::Write;
@@ -25,6 +26,8 @@ fn main() {
             Some(p) => jaeger::replay(p, &mut *out),
             None => jaeger::generate(seed, n, &mut *out),
         },
+        "datadog" => others::datadog(seed, n, &mut *out),
+        "otel" => others::otel(seed, n, &mut *out),
         _ => {
             eprintln!("usage: vreporters jaeger [--seed N] [--n N] [--out FILE] [--replay FILE]");
             std::process::exit(2);
